@@ -84,6 +84,9 @@ type script struct {
 	Cookies [][2]string
 	RC      []rcookie // cookies with attributes (response exposure cases)
 	DelayMs int
+	// BodyStallMs: the head and the first bytes of the body are sent at once, the rest of the body
+	// only after this long (a response that is under way when the context ends)
+	BodyStallMs int
 }
 
 // a cookie of a response: the value may be empty ("legacy=; Max-Age=0" clears a
@@ -147,6 +150,22 @@ func (s *server) handle(w http.ResponseWriter, r *http.Request) {
 	}
 	w.Header().Set("Content-Type", "text/html; charset=utf-8")
 	w.WriteHeader(sc.Status)
+	if sc.BodyStallMs > 0 {
+		w.Write([]byte("<html><head><title>t</title></head><body><p>o"))
+		if f, ok := w.(http.Flusher); ok {
+			f.Flush()
+		}
+		select {
+		case <-time.After(time.Duration(sc.BodyStallMs) * time.Millisecond):
+		case <-r.Context().Done():
+			s.mu.Lock()
+			rec.Aborted = true
+			s.mu.Unlock()
+			return
+		}
+		w.Write([]byte("k</p></body></html>"))
+		return
+	}
 	w.Write([]byte("<html><head><title>t</title></head><body><p>ok</p></body></html>"))
 }
 
@@ -809,7 +828,7 @@ func work(out, tier string, seed int64) {
 		CancelMs int
 	}
 	var cans []can
-	for _, k := range []string{"cancel", "deadline", "param-timeout"} {
+	for _, k := range []string{"cancel", "deadline", "param-timeout", "cancel-mid-body", "deadline-mid-body"} {
 		for _, d := range []int{30, 150, 500, 4000} {
 			cans = append(cans, can{k, d})
 		}
@@ -825,12 +844,16 @@ func work(out, tier string, seed int64) {
 		go func(i int, c can) {
 			defer wg.Done()
 			id := fmt.Sprintf("c%d", i)
-			url := srv.set(id, script{Status: 200, DelayMs: respMs})
+			sc := script{Status: 200, DelayMs: respMs}
+			if strings.HasSuffix(c.Kind, "-mid-body") {
+				sc = script{Status: 200, BodyStallMs: respMs} // the head and part of the body arrive at once
+			}
+			url := srv.set(id, sc)
 			drv := httpdrv.NewDriver(httpdrv.WithMaxRetries(1))
 			ctx := context.Background()
 			p := map[string]interface{}{}
 			var cancel context.CancelFunc = func() {}
-			switch c.Kind {
+			switch strings.TrimSuffix(c.Kind, "-mid-body") {
 			case "cancel":
 				ctx, cancel = context.WithCancel(ctx)
 				go func(cf context.CancelFunc) {
@@ -848,7 +871,11 @@ func work(out, tier string, seed int64) {
 			cancel()
 			elapsed[i] = el.Milliseconds()
 			// bucket: did Run return clearly before the response could have arrived?
-			early[i] = el < time.Duration(respMs-700)*time.Millisecond
+			// ... and with an error: a page cut short is not a result
+			early[i] = el < time.Duration(respMs-700)*time.Millisecond && rerr != nil
+			if el < time.Duration(respMs-700)*time.Millisecond && rerr == nil {
+				errs[i] = "returned early WITHOUT an error"
+			}
 			if rerr != nil {
 				errs[i] = rerr.Error()
 			}
